@@ -147,6 +147,30 @@ def regen_arith():
     return True, msgs
 
 
+def regen_limits():
+    """T-F: decision logic of the resize limits (check_resize_validity and the two setters) from the source text"""
+    gen = os.path.join(CACHE, "gen")
+    os.makedirs(gen, exist_ok=True)
+    tmp = os.path.join(gen, "Limits.lean")
+    rc, out, _ = sh([sys.executable, os.path.join(VERIF, "translate", "limits.py"), REPO, tmp])
+    if rc != 0:
+        return False, ["T-F: " + out.strip()[-1200:]]
+    msgs = []
+    if write_if_changed(os.path.join(LEAN, "Cuckoo", "Gen", "Limits.lean"), open(tmp).read()):
+        msgs.append("T-F: Gen/Limits.lean changed")
+    return True, msgs
+
+
+def both(*fns):
+    def f():
+        ok, msgs = True, []
+        for g in fns:
+            o, m = g()
+            ok, msgs = ok and o, msgs + m
+        return ok, msgs
+    return f
+
+
 # ---------------------------------------------------------------- lean
 
 def lake_build(targets, timeout=3000):
